@@ -652,6 +652,41 @@ def sequence_set_to_list(
 
 ####################################################################
 #
+def clip_sequence_set(seq_set: MsgSet, seq_max: int) -> list:
+    """Bound the ranges of a sequence set by the numbers that can exist.
+
+    UID sets may name numbers beyond the largest UID of the mailbox: `1:*`
+    is often written `1:4294967295`. Such numbers name no message, but
+    `sequence_set_to_list()` expands every range it is given, one list
+    element per number. Callers that accept numbers beyond `seq_max` pass
+    their set through here first so that the expansion is bounded by the
+    size of the mailbox and not by what the client chose to send.
+
+    `*` is `seq_max`. A range that lies entirely above `seq_max` names no
+    message and is dropped; any other range has its upper end cut down to
+    `seq_max`. Single numbers are left for `sequence_set_to_list()`.
+
+    Args:
+        seq_set: The parsed sequence set, see `sequence_set_to_list()`.
+        seq_max: The largest number that names a message.
+
+    Returns:
+        The sequence set with every range bounded by `seq_max`.
+    """
+    result: list = []
+    for elt in seq_set:
+        if isinstance(elt, tuple):
+            start, end = (seq_max if x == "*" else x for x in elt)
+            low, high = min(start, end), max(start, end)
+            if low > seq_max:
+                continue
+            elt = (low, min(high, seq_max))
+        result.append(elt)
+    return result
+
+
+####################################################################
+#
 def get_uidvv_uid(hdr: str) -> tuple:
     """Parse the uid_vv and uid integers from an `X-asimapd-uid` header value.
 
